@@ -12,6 +12,17 @@ Tie: translator (T) + correspondence (C).
   (`Audit.topAuditBio/Expr`) says which faults must be reported; an independent oracle written from
   the property says whether the specification must be refused.  Data audit, nest audits, derivative
   flags and the missing-data code are exercised as relations on real runs (fresh processes).
+* names stream: elementary expressions of every kind with coinciding names (one name for two kinds of
+  element; a column absent from the data whose name is borne by a parameter / draw / integration
+  variable), planted in every (class, slot) context, in side terms and in a second formula of the
+  dictionary, through every entry path that assigns ids (`get_value_and_derivatives`, `get_value_c`,
+  `Database.add_column / define_variable / remove / values_from_database`, `BIOGEME(...)` with and
+  without audit, `BIOGEME(dict)`); model `Audit.stagedExpr / stagedBio` (ids, then audit, in the order of
+  each path).
+* data life cycle stream: operation sequences on a valid `Database` (a first `BIOGEME` object,
+  `.panel()`, the user rebinding or editing `database.data`, `add_column`, `remove`, `scale_column`)
+  after which NaN / non-numeric / empty data enters; the data must be refused where it is supplied
+  again (`BIOGEME(...)`, `BIOGEME(dict)`, `Database(...)`); model `Audit.dataAuditNew / dataAuditBio`.
 """
 
 from __future__ import annotations
@@ -34,21 +45,33 @@ MANIFEST = dict(
     'of operator kinds (C12.audit_complete, induction over paths; unknown_column_refused, logit_keys_refused); draws / integration variables / '
     'panel variables reachable without crossing their operator are reported on both entry paths (C12.draws_outside_refused, rv_outside_refused, '
     'panel_variable_refused) and only then (C12.collectors_sound); a formula without local fault passes (C12.audit_sound); the real operator '
-    'classes descend into every child slot (C12.table_descends, decide over the table REGENERATED from the live classes on every run). '
-    'Tie: translator + exhaustive (class, slot) fault planting on both entry paths with the engine call intercepted; data/nest/flag/missing-data '
+    'classes descend into every child slot, also for the collectors of names and the assignment of ids (C12.table_descends, decide over the '
+    'table REGENERATED from the live classes on every run); one name for two kinds of element and a column absent from the data are reported at '
+    'id assignment wherever the elements sit, whatever else bears the name, on every entry path, audit skipped or not (C12.duplicate_name_refused, '
+    'name_of_column_refused, absent_column_refused_at_ids, ids_sound, staged_reports_stage_faults); non-numeric, NaN or empty data held at the time '
+    'of the call is refused by Database(...) and BIOGEME(...), valid data never (C12.data_fault_refused, data_valid_accepted). '
+    'Tie: translator + exhaustive (class, slot) fault planting on both entry paths with the engine call intercepted; a names stream over nine entry '
+    'paths; a data life-cycle stream (operation sequences, then a data fault, then the data is supplied again); nest/flag/missing-data '
     'clauses are checked as relations on real runs.',
     design='DESIGN.md §5 C12',
     technique='Lean 4 theorems over a structural audit model + generated operator table (decide) + exhaustive fault-planting correspondence',
-    note='Partial: data audit, nest audits, derivative-flag check and the missing-data clause are validated on real runs (oracle), not proved; '
+    note='Partial: nest audits, derivative-flag check and the missing-data clause are validated on real runs (oracle), not proved; the data audit is '
+    'modelled on what the audit can see of a frame (numeric dtype, a null entry, number of rows); NaN / non-numeric data is judged where data is '
+    'supplied (Database(...), BIOGEME(...)), not at formula-level evaluation of a Database edited after its construction; '
+    'known finding F-C12-empty: a Database emptied after its construction kills the interpreter in BIOGEME(...) (model = repaired behaviour); '
     'after one engine exception the external engine keeps rethrowing it in the same process (known finding F-E2, engine outside /repo): '
     'missing-data cases run in fresh processes.',
 )
 TRUSTED = ['probe recipes of the translator (how each class is instantiated with given children)',
-           'message keywords used to recognise which fault an error message names']
+           'message keywords used to recognise which fault an error message names',
+           'the abstract frame of a data life-cycle case (tracked by construction, cross-checked against the frame read with pandas)']
 ASSUMPTIONS = []
 RULE = ('fault elements (unknown column, draws/rv/panel variable outside their operator, logit key mismatch, MonteCarlo without draws / nested, '
         'Integrate without rv, trajectory on flat data, valid fillers) x every (expression class, child slot) context, nested to depth 1-3, x both '
-        'entry paths; non-trivial = context depth >= 1 (the fault is not the root)')
+        'entry paths; non-trivial = context depth >= 1 (the fault is not the root).  Names stream: 1-4 elementary expressions (free / fixed '
+        'parameter, draws, integration variable, variable) with coinciding or distinct names, present or absent columns, in hole / side term / '
+        'second formula x contexts of depth 0-3 x 9 entry paths; non-trivial = depth >= 1 or >= 2 elements.  Data life cycle: 0-4 preparation '
+        'steps x 9 data faults or none x 2 neutral rebindings x 6 entry points; all non-trivial')
 
 GEN = core.LEAN / 'Generated' / 'Operators.lean'
 
@@ -944,6 +967,7 @@ LIFE_FAULTS = ['nan_cell_used', 'nan_cell_unused', 'nan_derived', 'nan_new_colum
 LIFE_POST = ['none', 'assign_copy']
 LIFE_ENTRIES_DATA = ['bio', 'bio_dict', 'db_new']            # points where the data is supplied (and audited) again
 LIFE_ENTRIES_EXPR = ['gvc', 'vfd', 'addcol']                  # formula-level entry points (empty data / valid data only)
+EMPTY_WHERE = 'datalife: empty data reaches the engine'
 
 
 def life_frame():
@@ -1084,7 +1108,7 @@ def life_worker(payload):
                     B = bio.BIOGEME(db, life_formula(panel, alt=True))
                     r['obs'] = ['ok', '']
                 elif entry == 'bio_dict':
-                    B = bio.BIOGEME(db, {'log_like': life_formula(panel, alt=True), 'weight': Numeric(1) if not panel else Numeric(1) + 0 * Beta('w0', 0, None, None, 1)})
+                    B = bio.BIOGEME(db, {'log_like': life_formula(panel, alt=True), 'weight': Numeric(1)})
                     r['obs'] = ['ok', '']
                 elif entry == 'db_new':
                     dbm.Database('again', db.data)
@@ -1125,9 +1149,15 @@ def life_message_ok(faults, msg):
 def judge_life(ctx, res, case, r):
     c = {'stream': 'datalife', 'pre': case['pre'], 'fault': case['fault'], 'post': case['post'], 'entry': case['entry']}
     fault = case['fault'] or ''
-    where = 'datalife: empty data' if fault.startswith('empty') else f'datalife:{case["entry"]}'
+    # (the entry points on which the listed finding F-C12-empty shows have their own call-site name)
+    where = EMPTY_WHERE if fault.startswith('empty') and case['entry'] in ('bio', 'bio_dict', 'gvc') else f'datalife:{case["entry"]}'
     if 'worker_error' in r:
-        # the interpreter died: nothing was refused with the library's error type
+        if not any(sig in r['worker_error'] for sig in ("'rc=-6'", "'rc=-11'")):
+            # not a crash of the interpreter (timeout, killed from outside): infrastructure, no verdict
+            res.notes.append(f'data life cycle: worker error on {c}: {r["worker_error"][:200]}')
+            res.tally('datalife:worker_error')
+            return
+        # the interpreter died (SIGABRT / SIGSEGV): nothing was refused with the library's error type
         res.count(c, nontrivial=True)
         if fault:
             res.violate(f'data life cycle: {fault} data: the interpreter is aborted at entry {case["entry"]} instead of a library error', c, r['worker_error'][:300],
@@ -1535,7 +1565,7 @@ def search(ctx, res, broken):
         for c, r in zip(cases, run_plantings(cases, worker='life_worker', min_chunk=6)):
             judge_life(ctx, r3, c, r)
         # the listed finding on empty data is no news
-        r2.violations.extend(v for v in r3.violations if v.get('where') != 'datalife: empty data')
+        r2.violations.extend(v for v in r3.violations if v.get('where') != EMPTY_WHERE)
     ctx.batch.items.clear()
     res.violations.extend(r2.violations[:3])
 
